@@ -407,19 +407,25 @@ def stepBranch (sel : Store → Nat) (o : Ord) (st : Store) : Branch :=
   | [] => ⟨i, [], []⟩
   | v :: rest => ⟨i, [v], rest⟩
 
-/-- `bisect`: `X #=< Mid` / `X #> Mid` with `Mid = (inf+sup)//2` (and `Mid-1` if that is sup). -/
-def bisectBranch (sel : Store → Nat) (o : Ord) (st : Store) : Branch :=
-  let i := fixSel sel st
-  let d := st.getD i []
+/-- the two halves of `bisect`: `X #=< Mid` / `X #> Mid` with `Mid = (inf+sup)//2`
+    (and `Mid-1` if that is sup), as in `choice_order_variable(bisect, …)`. -/
+def bisectParts (d : List Int) : List Int × List Int :=
   let lo := listMin d
   let hi := listMax d
   let mid0 := Int.tdiv (lo + hi) 2
   let mid := if mid0 = hi then mid0 - 1 else mid0
-  let le := d.filter (fun x => decide (x ≤ mid))
-  let gt := d.filter (fun x => !decide (x ≤ mid))
-  match o with
-  | .up => ⟨i, le, gt⟩
-  | .down => ⟨i, gt, le⟩
+  (d.filter (fun x => decide (x ≤ mid)), d.filter (fun x => !decide (x ≤ mid)))
+
+/-- `bisect` (falls back to `step` if a half is empty, which cannot happen for a duplicate-free
+    candidate list with two or more values; the fallback keeps the rule valid on every store). -/
+def bisectBranch (sel : Store → Nat) (o : Ord) (st : Store) : Branch :=
+  let i := fixSel sel st
+  let p := bisectParts (st.getD i [])
+  if p.1.isEmpty || p.2.isEmpty then stepBranch sel o st
+  else
+    match o with
+    | .up => ⟨i, p.1, p.2⟩
+    | .down => ⟨i, p.2, p.1⟩
 
 def strategy (sel : Store → Nat) (o : Ord) : Choice → Store → Branch
   | .step => stepBranch sel o
